@@ -143,7 +143,7 @@ func c20GenGraph(r *vh.Rand, forRuns bool) *c20Case {
 	}
 	edge(prev, "end")
 	// extra edges: forward (fan-in/out), occasionally backward (cycle)
-	for k := r.Intn(3); k > 0 && nn >= 2; k-- {
+	for k := r.Intn(3); k > 0 && nn >= 2 && !forRuns; k-- { // run graphs stay trees: no fan-in merges
 		i, j := r.Intn(nn), r.Intn(nn)
 		if i == j {
 			continue
@@ -153,7 +153,7 @@ func c20GenGraph(r *vh.Rand, forRuns bool) *c20Case {
 		}
 		edge(nodes[i].key, nodes[j].key)
 	}
-	if r.Chance(12) { // branch from START
+	if !forRuns && r.Chance(12) { // branch from START
 		linkOps = append(linkOps, c20Op{Op: "branch", S: "start", T: c.InT, Ends: c20SortedCopy([]string{nodes[0].key, "end"}), Pick: nodes[0].key})
 	}
 	if !forRuns && r.Chance(6) { // zero-end branch (accepted by the code; typed pass-through corner)
